@@ -10,6 +10,11 @@ let float_of_tok (t : n list) : float =
 let fclose_oracle (a : n list) (b : n list) : bool =
   abs_float (float_of_tok a -. float_of_tok b) < 0.000001
 
+(* the variant of the model: [deployed] (= the state of /repo) decides; C20_MODEL_FIXES=none|all runs the model of the
+   code as found / of all prepared repairs instead (to validate those variants against a tree in that state) *)
+let fixes : fixes = match Sys.getenv_opt "C20_MODEL_FIXES" with
+  | Some "none" -> no_fixes | Some "all" -> all_fixes | _ -> deployed
+
 (* lspcommon.LocToRange: uint32(line) - 1, uint32(column) *)
 let u32 (x : int) = x land 0xFFFFFFFF
 let range_s (l : loc) =
@@ -27,11 +32,15 @@ let () = register "c20.diags" (fun line ->
   let c = parse_srv_case line in
   let bs = match c.files with (_, b) :: _ -> b | [] -> [] in
   oracle_used := false;
-  let r = check_bytes fclose_oracle gbk_oracle classify_tok bs in
+  let r = check_bytes fixes fclose_oracle gbk_oracle classify_tok bs in
   if !oracle_used then "SKIP-ORACLE\t-\t-" else
   match r with
   | OutOfFuel -> "SKIP-MODEL-OUT-OF-FUEL\t-\t-"
   | Fault _ -> "SKIP-MODEL-FAULT\t-\t-"
+  | Ok o when fixes.fx_else && not o.o_else_exact ->
+    (* IfStat.HasElse cannot be told from the Locs of the `else` tokens (a Loc collision, or a stray `else` in a file
+       with syntax errors): Model/Patterns.v has_else, PatternsClasses.else_exact *)
+    "SKIP-ELSE-AMBIGUOUS\t-\t-"
   | Ok o ->
     let m = show (List.map (fun (r : report) -> (int_of_n r.r_ty, r.r_loc)) o.o_model) in
     if not o.o_valid then m ^ "\t-\t-" else
